@@ -1,22 +1,29 @@
 //! C19 — `UnionFind` histories: every public call, in- and out-of-range arguments, all widths.
+//!
+//! Two structures live side by side: the CURRENT one (`uf`, every call of the alphabet goes to it) and a
+//! second one (`other`): `newb n` (`other = new(n)`), `clone` (`other = uf.clone()`), `clone_from`
+//! (`other.clone_from(&uf)` on whatever `other` was), `swap` (`mem::swap`) — so "clone, then mutate both" and
+//! `clone_from` onto an arbitrary earlier value are mirrored by the driver like every other call.
+//! `law <name> … => ok | VIOLATED <why>` lines are laws checked here against the implementation itself
+//! (docs/C19_api.md lists them); the driver expects `ok`.
 use crate::common::*;
 use crate::rng::Rng;
 use petgraph::graph::IndexType;
 use petgraph::unionfind::UnionFind;
 
-fn len_ok(_n: usize) -> bool {
-    true
-}
-
-/// the `rank` vector, read through the derived `Debug` (`UnionFind { parent: [..], rank: [..] }`) —
-/// the only public observation of it. Not determined by the property: the driver compares it with the
-/// mirror model only (MODELDIFF), which ties the model's `rank` field — and the proved bound
-/// `2^rank <= len` that keeps the `u8` from overflowing — to the real one.
-fn ranks_of<K: IndexType>(uf: &UnionFind<K>) -> String {
-    let s = format!("{:?}", uf);
-    match s.rfind("rank: [") {
+/// one field (`parent` / `rank`) of the derived `Debug` output `UnionFind { parent: [..], rank: [..] }` —
+/// the only public observation of the two vectors. Not determined by the property: the driver compares
+/// them with the mirror model only (MODELDIFF), which ties the model's fields — and the proved bound
+/// `2^rank <= len` that keeps the `u8` from overflowing — to the real ones.
+fn field_of<K: IndexType>(uf: &UnionFind<K>, name: &str) -> String {
+    let s = match catch(|| format!("{:?}", uf)) {
+        Some(s) => s,
+        None => return "panic".into(),
+    };
+    let key = format!("{}: [", name);
+    match s.find(&key) {
         Some(i) => {
-            let t = &s[i + 7..];
+            let t = &s[i + key.len()..];
             let body = t[..t.find(']').unwrap_or(t.len())].trim();
             if body.is_empty() {
                 "-".into()
@@ -25,6 +32,338 @@ fn ranks_of<K: IndexType>(uf: &UnionFind<K>) -> String {
             }
         }
         None => "?".into(),
+    }
+}
+fn ranks_of<K: IndexType>(uf: &UnionFind<K>) -> String {
+    field_of(uf, "rank")
+}
+fn parents_of<K: IndexType>(uf: &UnionFind<K>) -> String {
+    field_of(uf, "parent")
+}
+
+/// the classes a vector of representatives describes, canonically: every element is mapped to the smallest element
+/// that has the same representative; `None` if some representative is not a member of the class it names
+fn classes_of(reps: &[usize]) -> Option<Vec<usize>> {
+    let mut out = Vec::with_capacity(reps.len());
+    for (i, r) in reps.iter().enumerate() {
+        if *r >= reps.len() || reps[*r] != *r {
+            return None;
+        }
+        out.push(reps.iter().position(|q| q == r).unwrap_or(i));
+    }
+    Some(out)
+}
+
+/// everything the property determines about a structure, as one string (laws compare these): element count,
+/// emptiness, the representative of every element by `find`, and the classes `into_labeling` of a clone describes
+/// (its representatives need not be `find`'s)
+fn full<K: IndexType>(uf: &UnionFind<K>) -> String {
+    let finds = catch(|| list((0..uf.len()).map(|i| uf.find(K::new(i)).index()))).unwrap_or_else(|| "panic".into());
+    let lab = catch(|| uf.clone().into_labeling().iter().map(|k| k.index()).collect::<Vec<_>>());
+    let lab = match lab {
+        None => "panic".to_string(),
+        Some(l) => match classes_of(&l) {
+            None => format!("invalid {:?}", l),
+            Some(c) => list(c),
+        },
+    };
+    format!("len={} empty={} finds={} labeling-classes={}", uf.len(), uf.is_empty(), finds, lab)
+}
+
+/// `kind` = `law`: determined by the property statement (the driver answers SPECFAIL unless `ok`);
+/// `kind` = `doc`: a documented contract outside the property statement (MODELDIFF unless `ok`)
+fn law_kind(ctx: &mut Ctx, kind: &str, name: &str, r: Option<Option<String>>) {
+    let ans = match r {
+        None => "VIOLATED panicked".to_string(),
+        Some(None) => "ok".to_string(),
+        Some(Some(why)) => format!("VIOLATED {}", why.replace('\n', " ")),
+    };
+    ctx.line(&format!("{} {}", kind, name), &ans);
+}
+fn law(ctx: &mut Ctx, name: &str, r: Option<Option<String>>) {
+    law_kind(ctx, "law", name, r)
+}
+fn dump<K: IndexType>(ctx: &mut Ctx, uf: &UnionFind<K>) {
+    let r = catch(|| list((0..uf.len()).map(|i| uf.find(K::new(i)).index())));
+    ctx.line("dump", &r.unwrap_or_else(|| "panic".into()));
+}
+fn observe<K: IndexType>(ctx: &mut Ctx, uf: &UnionFind<K>) {
+    dump(ctx, uf);
+    ctx.line("parents", &parents_of(uf));
+    ctx.line("ranks", &ranks_of(uf));
+}
+
+fn show_bool(r: Option<bool>) -> String {
+    r.map(|v| v.to_string()).unwrap_or("panic".into())
+}
+fn show_ix(r: Option<usize>) -> String {
+    r.map(|v| v.to_string()).unwrap_or("panic".into())
+}
+fn show_res<K: IndexType>(r: Result<bool, K>) -> String {
+    match r {
+        Ok(b) => format!("ok {}", b),
+        Err(k) => format!("err {}", k.index()),
+    }
+}
+
+/// an argument: in range with prob ~0.87 when possible; the out-of-range ones are representable in `K` and
+/// include the first one (`len`), `K::max()`, a far one, and "truncation aliases" of in-range elements
+/// (`i + 2^8`, `i + 2^16`, `i + 2^32`); the in-range ones favour the first and the last element.
+fn gen_arg(rng: &mut Rng, len: usize, kmax: usize) -> usize {
+    let want_bad = len == 0 || rng.chance(13);
+    if want_bad && len <= kmax {
+        let near = |rng: &mut Rng| {
+            let hi = kmax.min(len.saturating_add(3));
+            len + rng.below(hi - len + 1)
+        };
+        match rng.below(10) {
+            0 | 1 => kmax,
+            2 | 3 => {
+                let i = if len > 0 { rng.below(len) } else { 0 };
+                let c: Vec<usize> = [1usize << 8, 1 << 16, 1 << 32]
+                    .iter()
+                    .filter_map(|p| i.checked_add(*p))
+                    .filter(|v| *v <= kmax && *v >= len)
+                    .collect();
+                if c.is_empty() {
+                    near(rng)
+                } else {
+                    *rng.pick(&c)
+                }
+            }
+            4 => len + rng.below((kmax - len).min(1 << 20) + 1),
+            5 => len,
+            _ => near(rng),
+        }
+    } else if len > 0 {
+        match rng.below(9) {
+            0 => len - 1,
+            1 => 0,
+            _ => rng.below(len),
+        }
+    } else {
+        0
+    }
+}
+
+/// a pair of arguments: ~7% the same element twice (in or out of range), ~3% both out of range
+fn gen_pair(rng: &mut Rng, len: usize, kmax: usize) -> (usize, usize) {
+    let x = gen_arg(rng, len, kmax);
+    match rng.below(100) {
+        0..=6 => (x, x),
+        7..=9 if len <= kmax => {
+            let hi = kmax.min(len.saturating_add(3));
+            (len + rng.below(hi - len + 1), len + rng.below(hi - len + 1))
+        }
+        _ => (x, gen_arg(rng, len, kmax)),
+    }
+}
+
+/// `n == 0`: one of the four ways to make an empty structure; a constructor that panics is an answer
+fn make<K: IndexType>(rng: &mut Rng, n: usize) -> Option<UnionFind<K>> {
+    if n == 0 {
+        match rng.below(5) {
+            0 => catch(UnionFind::new_empty),
+            1 => {
+                let c = *rng.pick(&[0usize, 0, 1, 3, 8, 300]);
+                catch(|| UnionFind::with_capacity(c))
+            }
+            2 => catch(UnionFind::default),
+            _ => catch(|| UnionFind::new(0)),
+        }
+    } else {
+        catch(|| UnionFind::new(n))
+    }
+}
+
+/// the capacity calls; `7..10` are impossible requests (documented error / panic), `11` a no-op bound
+fn cap_call<K: IndexType>(ctx: &mut Ctx, rng: &mut Rng, uf: &mut UnionFind<K>) {
+    let which = rng.weighted(&[3, 3, 3, 3, 3, 3, 2, 1, 1, 1, 1, 1]);
+    let k = match rng.below(4) {
+        0 => 0,
+        1 => 300 + rng.below(800),
+        _ => rng.below(40),
+    };
+    let before = uf.capacity();
+    let len = uf.len();
+    let r = catch(|| match which {
+        0 => {
+            uf.reserve(k);
+            "ok"
+        }
+        1 => {
+            uf.reserve_exact(k);
+            "ok"
+        }
+        2 => uf.try_reserve(k).map(|_| "ok").unwrap_or("err"),
+        3 => uf.try_reserve_exact(k).map(|_| "ok").unwrap_or("err"),
+        4 => {
+            uf.shrink_to_fit();
+            "ok"
+        }
+        5 => {
+            uf.shrink_to(k);
+            "ok"
+        }
+        6 => {
+            let _ = uf.capacity();
+            "ok"
+        }
+        7 => uf.try_reserve(usize::MAX).map(|_| "ok").unwrap_or("err"),
+        8 => uf.try_reserve_exact(usize::MAX).map(|_| "ok").unwrap_or("err"),
+        9 => {
+            uf.reserve(usize::MAX);
+            "ok"
+        }
+        10 => {
+            uf.reserve_exact(usize::MAX);
+            "ok"
+        }
+        _ => {
+            uf.shrink_to(usize::MAX);
+            "ok"
+        }
+    });
+    ctx.line(&format!("cap {}", which), r.unwrap_or("panic"));
+    // "capacity operations have no observable effect on the partition": same element count (the dump that follows
+    // shows the representatives), and `capacity()` itself does not panic
+    let after = catch(|| uf.capacity());
+    let why = if after.is_none() {
+        Some("capacity() panicked".to_string())
+    } else if uf.len() != len {
+        Some(format!("len changed from {} to {}", len, uf.len()))
+    } else if uf.is_empty() != (len == 0) {
+        Some(format!("is_empty() = {} with len {}", uf.is_empty(), len))
+    } else {
+        None
+    };
+    law(ctx, &format!("capacity which={} arg={}", which, k), Some(why));
+    // the bounds the doc comments of the capacity calls promise for `capacity()` — a documented contract, but not part
+    // of the property statement: the driver reports a violation as MODELDIFF
+    if let Some(c) = after {
+        let why = if c < len {
+            Some(format!("capacity {} below len {}", c, len))
+        } else if which <= 3 && r == Some("ok") && c < len + k {
+            Some(format!("capacity {} below len + additional = {} + {}", c, len, k))
+        } else if (which == 6 || which == 11) && c != before {
+            Some(format!("capacity changed from {} to {} by a call documented as a no-op", before, c))
+        } else if (which == 4 || which == 5) && c > before {
+            Some(format!("capacity grew from {} to {} by a shrinking call", before, c))
+        } else {
+            None
+        };
+        law_kind(ctx, "doc", &format!("capacity which={} arg={}", which, k), Some(why));
+    }
+}
+
+/// laws that do not change the two structures
+fn laws<K: IndexType>(ctx: &mut Ctx, rng: &mut Rng, uf: &UnionFind<K>, other: &UnionFind<K>, max_elems: usize) {
+    match rng.below(5) {
+        0 => {
+            // `t.clone_from(&uf)` observably equals `t = uf.clone()`, for the arbitrary prior `t = other`
+            let r = catch(|| {
+                let mut t = other.clone();
+                t.clone_from(uf);
+                let want = uf.clone();
+                let (x, y) = (full(&t), full(&want));
+                if x != y {
+                    return Some(format!("clone_from gave [{}], clone gives [{}]", x, y));
+                }
+                if full(uf) != y {
+                    return Some("the source changed".to_string());
+                }
+                None
+            });
+            law(ctx, "clone_from", r);
+        }
+        1 => {
+            // a clone is an equal, independent value: mutating it leaves the original alone and vice versa
+            let r = catch(|| {
+                let before = full(uf);
+                let mut c = uf.clone();
+                if full(&c) != before {
+                    return Some(format!("clone [{}] differs from the original [{}]", full(&c), before));
+                }
+                let n = c.len();
+                if n >= 2 {
+                    c.union(K::new(0), K::new(n - 1));
+                    c.find_mut(K::new(n - 1));
+                }
+                if n < max_elems {
+                    c.new_set();
+                }
+                if full(uf) != before {
+                    return Some("mutating the clone changed the original".to_string());
+                }
+                None
+            });
+            law(ctx, "clone", r);
+        }
+        2 => {
+            // `Debug` (`{:?}`, `{:#?}`, with width) never panics and prints something (its content is compared with
+            // the mirror model by the `parents` / `ranks` lines, MODELDIFF only)
+            let r = catch(|| {
+                let a = format!("{:?}", uf);
+                let b = format!("{:#?}", uf);
+                let c = format!("{:10?}", uf);
+                if a.is_empty() || b.is_empty() || c.is_empty() {
+                    return Some("empty Debug output".to_string());
+                }
+                None
+            });
+            law(ctx, "debug", r);
+        }
+        3 => {
+            // `Default::default()` ≡ `new_empty()` ≡ `new(0)` ≡ `with_capacity(k)`: an empty structure
+            let r = catch(|| {
+                let want = full(&UnionFind::<K>::new(0));
+                let cands = [
+                    ("default", full(&UnionFind::<K>::default())),
+                    ("new_empty", full(&UnionFind::<K>::new_empty())),
+                    ("with_capacity(0)", full(&UnionFind::<K>::with_capacity(0))),
+                    ("with_capacity(17)", full(&UnionFind::<K>::with_capacity(17))),
+                ];
+                for (n, c) in cands.iter() {
+                    if *c != want {
+                        return Some(format!("{} is [{}], new(0) is [{}]", n, c, want));
+                    }
+                }
+                let mut d = UnionFind::<K>::default();
+                if d.new_set().index() != 0 || d.len() != 1 || d.is_empty() {
+                    return Some("new_set on a Default structure".to_string());
+                }
+                None
+            });
+            law(ctx, "default", r);
+        }
+        _ => {
+            // `into_labeling` of a clone describes the classes `find` describes (one member per class, the same for all
+            // members) and leaves the original alone; the read-only and the compressing finds agree on a clone
+            let r = catch(|| {
+                let before = full(uf);
+                let lab: Vec<usize> = uf.clone().into_labeling().iter().map(|k| k.index()).collect();
+                let finds: Vec<usize> = (0..uf.len()).map(|i| uf.find(K::new(i)).index()).collect();
+                if lab.len() != finds.len() {
+                    return Some(format!("into_labeling has {} entries, len is {}", lab.len(), finds.len()));
+                }
+                match (classes_of(&lab), classes_of(&finds)) {
+                    (Some(a), Some(b)) if a == b => {}
+                    _ => return Some(format!("into_labeling {:?} and find {:?} describe different classes", lab, finds)),
+                }
+                let mut c = uf.clone();
+                for i in 0..uf.len() {
+                    let (a, b) = (c.find_mut(K::new(i)).index(), c.try_find_mut(K::new(i)).map(|k| k.index()));
+                    if a != finds[i] || b != Some(finds[i]) {
+                        return Some(format!("find_mut({}) = {} / {:?}, find = {}", i, a, b, finds[i]));
+                    }
+                }
+                if full(uf) != before {
+                    return Some("the original changed".to_string());
+                }
+                None
+            });
+            law(ctx, "labeling", r);
+        }
     }
 }
 
@@ -42,18 +381,29 @@ fn run_case<K: IndexType>(ctx: &mut Ctx, rng: &mut Rng, case: u64, w: u32) {
         1 if w == 8 => 250 + rng.below(7),
         1 => 40 + rng.below(30),
         2 | 3 => 8 + rng.below(33),
+        4 => 1 + rng.below(2),
         _ => 1 + rng.below(12),
     };
-    let mut uf: UnionFind<K> = match rng.below(4) {
-        0 if n0 == 0 => UnionFind::new_empty(),
-        1 if n0 == 0 => UnionFind::with_capacity(rng.below(9)),
-        2 if n0 == 0 => UnionFind::default(),
-        _ => UnionFind::new(n0),
+    let mut uf: UnionFind<K> = match make(rng, n0) {
+        Some(u) => {
+            ctx.line(&format!("new {}", n0), "ok");
+            u
+        }
+        None => {
+            ctx.line(&format!("new {}", n0), "panic");
+            return;
+        }
     };
-    ctx.line(&format!("new {}", n0), "ok");
-    // at-capacity family (u8 only): fill the structure to exactly 256 elements, then use the last ones
+    if n0 == 0 || rng.chance(15) {
+        ctx.line("is_empty", &show_bool(catch(|| uf.is_empty())));
+        ctx.line("len", &show_ix(catch(|| uf.len())));
+    }
+    // the second structure starts as `new(0)` (the driver's initial `b`)
+    let mut other: UnionFind<K> = UnionFind::new(0);
+    // at-capacity family (u8 only): fill the structure to exactly 256 (sometimes 255) elements, then use the last ones
     if w == 8 && n0 >= 250 && rng.chance(60) {
-        while uf.len() < max_elems {
+        let target = if rng.chance(25) { max_elems - 1 } else { max_elems };
+        while uf.len() < target {
             let r = uf.new_set();
             ctx.line("new_set", &r.index().to_string());
         }
@@ -62,15 +412,13 @@ fn run_case<K: IndexType>(ctx: &mut Ctx, rng: &mut Rng, case: u64, w: u32) {
             let (x, y) = (n - 1 - rng.below(3), rng.below(n));
             let (x, y) = if rng.chance(50) { (x, y) } else { (y, x) };
             let r = catch(|| uf.union(K::new(x), K::new(y)));
-            ctx.line(&format!("union {} {}", x, y), &r.map(|v| v.to_string()).unwrap_or("panic".into()));
+            ctx.line(&format!("union {} {}", x, y), &show_bool(r));
         }
-        let r = catch(|| list((0..uf.len()).map(|i| uf.find(K::new(i)).index())));
-        ctx.line("dump", &r.unwrap_or_else(|| "panic".into()));
-        ctx.line("ranks", &ranks_of(&uf));
+        observe(ctx, &uf);
     }
     // deep-tree family: balanced "tournament" merges build trees of depth log2(n) (union by rank only
     // grows the depth when two trees of equal rank meet), which random unions almost never do
-    if n0 >= 8 && len_ok(n0) && rng.chance(35) {
+    if n0 >= 8 && rng.chance(35) {
         let mut step = 1;
         while step < n0 {
             let mut i = 0;
@@ -80,15 +428,15 @@ fn run_case<K: IndexType>(ctx: &mut Ctx, rng: &mut Rng, case: u64, w: u32) {
                 let b = i + step + rng.below(step.min(n0 - i - step));
                 let (x, y) = if rng.chance(50) { (a, b) } else { (b, a) };
                 let r = catch(|| uf.union(K::new(x), K::new(y)));
-                ctx.line(&format!("union {} {}", x, y), &r.map(|v| v.to_string()).unwrap_or("panic".into()));
+                ctx.line(&format!("union {} {}", x, y), &show_bool(r));
                 i += 2 * step;
             }
             step *= 2;
         }
-        let r = catch(|| list((0..uf.len()).map(|i| uf.find(K::new(i)).index())));
-        ctx.line("dump", &r.unwrap_or_else(|| "panic".into()));
+        dump(ctx, &uf);
         let r = catch(|| list(uf.clone().into_labeling().iter().map(|k| k.index())));
         ctx.line("labeling", &r.unwrap_or("panic".into()));
+        ctx.line("parents", &parents_of(&uf));
         ctx.line("ranks", &ranks_of(&uf));
     }
     // hub family (widths >= 16 only): one root absorbs several hundred classes, always as the first
@@ -107,33 +455,15 @@ fn run_case<K: IndexType>(ctx: &mut Ctx, rng: &mut Rng, case: u64, w: u32) {
                 continue;
             }
             let r = catch(|| uf.union(K::new(hub), K::new(i)));
-            ctx.line(&format!("union {} {}", hub, i), &r.map(|v| v.to_string()).unwrap_or("panic".into()));
+            ctx.line(&format!("union {} {}", hub, i), &show_bool(r));
         }
-        let r = catch(|| list((0..uf.len()).map(|i| uf.find(K::new(i)).index())));
-        ctx.line("dump", &r.unwrap_or_else(|| "panic".into()));
-        ctx.line("ranks", &ranks_of(&uf));
+        observe(ctx, &uf);
     }
     let nops = 5 + rng.below(if n0 > 30 { 120 } else { 55 });
-    let dump = |ctx: &mut Ctx, uf: &UnionFind<K>| {
-        let r = catch(|| list((0..uf.len()).map(|i| uf.find(K::new(i)).index())));
-        ctx.line("dump", &r.unwrap_or_else(|| "panic".into()));
-    };
     for _ in 0..nops {
         let len = uf.len();
-        // an argument: in range with prob ~0.87 when possible
-        let mut arg = |rng: &mut Rng| -> usize {
-            let want_bad = len == 0 || rng.chance(13);
-            if want_bad && len <= kmax {
-                // out of range but representable in K
-                let hi = kmax.min(len + 3);
-                len + rng.below(hi - len + 1)
-            } else if len > 0 {
-                rng.below(len)
-            } else {
-                0
-            }
-        };
-        let k = rng.weighted(&[8, 6, 4, 8, 4, 6, 4, 22, 12, 5, 3, 4]);
+        //                        0  1  2  3  4  5  6   7   8  9 10 11 12 13 14 15 16 17
+        let k = rng.weighted(&[8, 6, 4, 8, 4, 6, 4, 22, 12, 5, 2, 4, 3, 2, 3, 3, 4, 5]);
         let mut mutating = false;
         match k {
             0 => {
@@ -144,54 +474,46 @@ fn run_case<K: IndexType>(ctx: &mut Ctx, rng: &mut Rng, case: u64, w: u32) {
                 }
             }
             1 => {
-                let x = arg(rng);
+                let x = gen_arg(rng, len, kmax);
                 let r = catch(|| uf.find(K::new(x)).index());
-                ctx.line(&format!("find {}", x), &r.map(|v| v.to_string()).unwrap_or("panic".into()));
+                ctx.line(&format!("find {}", x), &show_ix(r));
             }
             2 => {
-                let x = arg(rng);
+                let x = gen_arg(rng, len, kmax);
                 let r = uf.try_find(K::new(x)).map(|v| v.index());
                 ctx.line(&format!("try_find {}", x), &opt(r));
             }
             3 => {
-                let x = arg(rng);
+                let x = gen_arg(rng, len, kmax);
                 let r = catch(|| uf.find_mut(K::new(x)).index());
-                ctx.line(&format!("find_mut {}", x), &r.map(|v| v.to_string()).unwrap_or("panic".into()));
+                ctx.line(&format!("find_mut {}", x), &show_ix(r));
                 mutating = true;
             }
             4 => {
-                let x = arg(rng);
+                let x = gen_arg(rng, len, kmax);
                 let r = uf.try_find_mut(K::new(x)).map(|v| v.index());
                 ctx.line(&format!("try_find_mut {}", x), &opt(r));
                 mutating = true;
             }
             5 => {
-                let (x, y) = (arg(rng), arg(rng));
+                let (x, y) = gen_pair(rng, len, kmax);
                 let r = catch(|| uf.equiv(K::new(x), K::new(y)));
-                ctx.line(&format!("equiv {} {}", x, y), &r.map(|v| v.to_string()).unwrap_or("panic".into()));
+                ctx.line(&format!("equiv {} {}", x, y), &show_bool(r));
             }
             6 => {
-                let (x, y) = (arg(rng), arg(rng));
-                let r = match uf.try_equiv(K::new(x), K::new(y)) {
-                    Ok(b) => format!("ok {}", b),
-                    Err(k) => format!("err {}", k.index()),
-                };
+                let (x, y) = gen_pair(rng, len, kmax);
+                let r = show_res(uf.try_equiv(K::new(x), K::new(y)));
                 ctx.line(&format!("try_equiv {} {}", x, y), &r);
             }
             7 => {
-                let (x, y) = (arg(rng), if rng.chance(6) { usize::MAX } else { arg(rng) });
-                let y = if y == usize::MAX { x } else { y };
+                let (x, y) = gen_pair(rng, len, kmax);
                 let r = catch(|| uf.union(K::new(x), K::new(y)));
-                ctx.line(&format!("union {} {}", x, y), &r.map(|v| v.to_string()).unwrap_or("panic".into()));
+                ctx.line(&format!("union {} {}", x, y), &show_bool(r));
                 mutating = true;
             }
             8 => {
-                let (x, y) = (arg(rng), if rng.chance(10) { usize::MAX } else { arg(rng) });
-                let y = if y == usize::MAX { x } else { y };
-                let r = match uf.try_union(K::new(x), K::new(y)) {
-                    Ok(b) => format!("ok {}", b),
-                    Err(k) => format!("err {}", k.index()),
-                };
+                let (x, y) = gen_pair(rng, len, kmax);
+                let r = show_res(uf.try_union(K::new(x), K::new(y)));
                 ctx.line(&format!("try_union {} {}", x, y), &r);
                 mutating = true;
             }
@@ -200,43 +522,129 @@ fn run_case<K: IndexType>(ctx: &mut Ctx, rng: &mut Rng, case: u64, w: u32) {
                 ctx.line("labeling", &r.unwrap_or("panic".into()));
             }
             10 => {
-                ctx.line("len", &format!("{}", if uf.is_empty() { 0 } else { uf.len() }));
+                ctx.line("len", &show_ix(catch(|| uf.len())));
+            }
+            11 => {
+                cap_call(ctx, rng, &mut uf);
+                mutating = true;
+            }
+            12 => {
+                ctx.line("is_empty", &show_bool(catch(|| uf.is_empty())));
+            }
+            13 => {
+                // an arbitrary earlier value for `other`: empty, tiny, as long as / longer than the current one, at capacity
+                let n = match rng.below(6) {
+                    0 => 0,
+                    1 => 1 + rng.below(3),
+                    2 => len.min(max_elems),
+                    3 => (len + 1 + rng.below(20)).min(max_elems).min(400),
+                    4 if w == 8 => max_elems - rng.below(2),
+                    _ => rng.below(40),
+                };
+                match make(rng, n) {
+                    Some(u) => {
+                        other = u;
+                        ctx.line(&format!("newb {}", n), "ok");
+                    }
+                    None => ctx.line(&format!("newb {}", n), "panic"),
+                }
+            }
+            14 => {
+                let r = catch(|| uf.clone());
+                match r {
+                    Some(c) => {
+                        other = c;
+                        ctx.line("clone", "ok");
+                    }
+                    None => ctx.line("clone", "panic"),
+                }
+            }
+            15 => {
+                let r = catch(|| other.clone_from(&uf));
+                ctx.line("clone_from", if r.is_some() { "ok" } else { "panic" });
+            }
+            16 => {
+                std::mem::swap(&mut uf, &mut other);
+                ctx.line("swap", "ok");
+                mutating = true;
             }
             _ => {
-                let which = rng.below(7);
-                let r = catch(|| match which {
-                    0 => uf.reserve(rng.below(40)),
-                    1 => uf.reserve_exact(rng.below(40)),
-                    2 => uf.try_reserve(rng.below(40)).unwrap(),
-                    3 => uf.try_reserve_exact(rng.below(40)).unwrap(),
-                    4 => uf.shrink_to_fit(),
-                    5 => uf.shrink_to(rng.below(10)),
-                    _ => {
-                        let _ = uf.capacity();
-                    }
-                });
-                ctx.line(&format!("cap {}", which), if r.is_some() { "ok" } else { "panic" });
-                mutating = true;
+                laws(ctx, rng, &uf, &other, max_elems);
             }
         }
         if mutating || rng.chance(20) {
             dump(ctx, &uf);
             if rng.chance(25) {
+                ctx.line("parents", &parents_of(&uf));
                 ctx.line("ranks", &ranks_of(&uf));
             }
         }
     }
-    dump(ctx, &uf);
-    ctx.line("ranks", &ranks_of(&uf));
+    // both structures are observed in full at the end; the second one is consumed by `into_labeling` too
+    observe(ctx, &uf);
+    std::mem::swap(&mut uf, &mut other);
+    ctx.line("swap", "ok");
+    observe(ctx, &uf);
     let r = catch(|| list(uf.into_labeling().iter().map(|k| k.index())));
     ctx.line("labeling", &r.unwrap_or("panic".into()));
+    ctx.line("swap", "ok");
+    let r = catch(|| list(other.into_labeling().iter().map(|k| k.index())));
+    ctx.line("labeling", &r.unwrap_or("panic".into()));
+}
+
+/// u16 at (and one below) its 65536-element capacity: the last index is `K::max()` — a value other petgraph
+/// types reserve as an "end" marker, `UnionFind` does not. Cheap because nothing is dumped: single calls only.
+fn run_u16_cap(ctx: &mut Ctx, rng: &mut Rng, case: u64) {
+    type K = u16;
+    ctx.raw(&format!("case {} w=16", case));
+    let max_elems = 65536usize;
+    let n0 = max_elems - rng.below(4);
+    let mut uf: UnionFind<K> = UnionFind::new(n0);
+    ctx.line(&format!("new {}", n0), "ok");
+    let target = if rng.chance(30) { max_elems - 1 } else { max_elems };
+    while uf.len() < target {
+        let r = uf.new_set();
+        ctx.line("new_set", &r.index().to_string());
+    }
+    let len = uf.len();
+    let pick = |rng: &mut Rng| -> usize {
+        match rng.below(6) {
+            0 => 65535, // in range iff the structure is full
+            1 => len - 1,
+            2 => len - 2,
+            3 => 0,
+            4 => 255 + rng.below(3),
+            _ => rng.below(len),
+        }
+    };
+    for _ in 0..(14 + rng.below(20)) {
+        let (x, y) = (pick(rng), pick(rng));
+        match rng.below(11) {
+            0 => ctx.line(&format!("find {}", x), &show_ix(catch(|| uf.find(K::new(x)).index()))),
+            1 => ctx.line(&format!("try_find {}", x), &opt(uf.try_find(K::new(x)).map(|v| v.index()))),
+            2 => ctx.line(&format!("find_mut {}", x), &show_ix(catch(|| uf.find_mut(K::new(x)).index()))),
+            3 => ctx.line(&format!("try_find_mut {}", x), &opt(uf.try_find_mut(K::new(x)).map(|v| v.index()))),
+            4 => ctx.line(&format!("equiv {} {}", x, y), &show_bool(catch(|| uf.equiv(K::new(x), K::new(y))))),
+            5 => ctx.line(&format!("try_equiv {} {}", x, y), &show_res(uf.try_equiv(K::new(x), K::new(y)))),
+            6 | 7 => ctx.line(&format!("union {} {}", x, y), &show_bool(catch(|| uf.union(K::new(x), K::new(y))))),
+            8 => ctx.line(&format!("try_union {} {}", x, y), &show_res(uf.try_union(K::new(x), K::new(y)))),
+            9 => ctx.line("len", &uf.len().to_string()),
+            _ => ctx.line("is_empty", &uf.is_empty().to_string()),
+        }
+    }
 }
 
 pub fn run(ctx: &mut Ctx, case: u64) {
     let mut rng = Rng::for_case(ctx.seed, "C19", case);
     match rng.below(4) {
         0 => run_case::<u8>(ctx, &mut rng, case, 8),
-        1 => run_case::<u16>(ctx, &mut rng, case, 16),
+        1 => {
+            if rng.chance(5) {
+                run_u16_cap(ctx, &mut rng, case)
+            } else {
+                run_case::<u16>(ctx, &mut rng, case, 16)
+            }
+        }
         2 => run_case::<u32>(ctx, &mut rng, case, 32),
         _ => run_case::<usize>(ctx, &mut rng, case, 64),
     }
